@@ -23,7 +23,7 @@ from harness import universe as U
 PROP = "C01"
 LEAN_PROP = "PyaModel.Props.C01"
 NAMESPACE = "Pya.C01"
-LEAN_TARGETS = ["PyaModel.Core.MiniPy", "PyaModel.Spec.MiniSem", "PyaModel.Core.Sexp", "PyaModel.Spec.Mem",
+LEAN_TARGETS = ["PyaModel.Core.MiniPy", "PyaModel.Spec.MiniSem", "PyaModel.Spec.D01", "PyaModel.Core.Sexp", "PyaModel.Spec.Mem",
                 "PyaModel.Generated.ClassTable"]
 ANCHORS = [
     ("pyanalyze/name_check_visitor.py", "NameCheckVisitor.visit"),
@@ -254,6 +254,7 @@ PARAM_TYPES = [
     Un(K(1), K(2)), Un(K("a"), K("b")), Un(K(1), T(STR)), Un(T(BOOL), NONE_T), Un(K(0), K(1), NONE_T),
     ("seq", TUPLE, [T(INT), T(STR)]), ("seq", TUPLE, [T(INT), Un(T(STR), NONE_T)]), ("seq", TUPLE, [T(INT), T(INT), T(STR)]),
     ("generic", TUPLE, [T(INT)]), ("seq", TUPLE, [T(INT), ("many", T(STR))]), ("seq", TUPLE, [("many", T(INT)), T(STR)]),
+    ("seq", TUPLE, [("many", T(INT)), T(STR), T(BYTES), NONE_T]), ("seq", TUPLE, [T(STR), ("many", T(INT)), T(BYTES), T(STR), NONE_T]),
     ("generic", LIST, [T(INT)]), ("generic", LIST, [T(STR)]), ("generic", LIST, [Un(T(INT), NONE_T)]),
     ("generic", DICT, [T(STR), T(INT)]), ("generic", SET, [T(INT)]), ("generic", FSET, [T(STR)]),
     ("generic", SEQUENCE, [T(INT)]), ("generic", MAPPING, [T(STR), T(INT)]),
@@ -384,7 +385,7 @@ def default_expr(rng, t):
     for _ in range(6):
         o = G.gen_obj_for(rng, t, 2)
         try:
-            if G.member(V.obj_to_py(o), t):
+            if G.member(V.obj_to_py(o), t) and not (_boolish(o) and not _mentions_boolish(t)):
                 return obj_src(o)
         except ValueError:
             return None
@@ -1598,6 +1599,7 @@ class Runner:
         tree2 = _Instr(ids).visit(self.tree2)
         # argument check at the entry of every generated function
         sig = {f["name"]: f["ptypes"] for f in fns}
+        self.num_eq = {f["name"]: f.get("num_eq", False) for f in fns}
         for st in tree2.body:
             if isinstance(st, ast.FunctionDef) and st.name in sig:
                 call = ast.Expr(ast.Call(func=ast.Name(id="__enter", ctx=ast.Load()),
@@ -1630,6 +1632,10 @@ class Runner:
         if self.calls == 1:
             return
         for i, (a, t) in enumerate(zip(args, self.sig[name])):
+            if self.num_eq.get(name) and not _mentions_boolish(t) and _py_boolish(a):
+                # the callee compares numbers with == / in / match: a bool or IntEnum value in a plain int position would
+                # leave the quantifier (cross-type equality); the execution is cut here, nothing is judged after it
+                raise Abort("cross-type-eq")
             if not G.member(a, t):
                 self.log.append(("arg", name, i, snapshot(a)))
                 raise Abort("tainted")
@@ -1658,6 +1664,17 @@ def _boolish(o):
     return False
 
 
+def _py_boolish(v):
+    import enum
+    if isinstance(v, bool) or isinstance(v, enum.IntEnum):
+        return True
+    if isinstance(v, (tuple, list, set, frozenset)):
+        return any(_py_boolish(x) for x in v)
+    if isinstance(v, dict):
+        return any(_py_boolish(x) for x in v) or any(_py_boolish(x) for x in v.values())
+    return False
+
+
 def _mentions_boolish(t):
     k = t[0]
     if k == "typed":
@@ -1670,6 +1687,22 @@ def _mentions_boolish(t):
         return any(_mentions_boolish(x) for x in t[1])
     if k == "many":
         return _mentions_boolish(t[1])
+    return False
+
+
+def cross_type_equal(val, ts):
+    """Is the runtime value == to a literal member of the inferred type that has another (numeric) type?"""
+    import enum
+    if not isinstance(val, (bool, int, float, complex)):
+        return False
+    for t in ts:
+        for m in (t[1] if t[0] == "union" else [t]):
+            if m[0] == "pyknown" and isinstance(m[1], (bool, int, float, complex)) and type(m[1]) is not type(val):
+                try:
+                    if m[1] == val:
+                        return True
+                except Exception:
+                    pass
     return False
 
 
@@ -1703,7 +1736,7 @@ def fn_ranges(tree):
     return {st.name: (st.lineno, st.end_lineno) for st in tree.body if isinstance(st, ast.FunctionDef)}
 
 
-def judge_module(fns, arg_sets, stats, want=None):
+def judge_module(fns, arg_sets, stats, on_exec=None):
     """Check + execute one module. fns: generated functions (dicts), arg_sets: {name: [argument object tuples]}.
     Returns the list of failures: dicts {fn, args, node, value, inferred, what, kind}."""
     body = "\n".join(f["src"] for f in fns) + "\n"
@@ -1764,6 +1797,10 @@ def judge_module(fns, arg_sets, stats, want=None):
             cur_args = {}
             for ent in log:
                 if ent[0] == "enter":
+                    if ent[1] in bad_fns:
+                        # a callee in which pyanalyze reported a diagnostic: whatever it returns is outside the property
+                        stats["cut_at_callee_with_diagnostics"] = stats.get("cut_at_callee_with_diagnostics", 0) + 1
+                        break
                     cur_args[ent[1]] = ent[2]
                     continue
                 if ent[0] == "arg":
@@ -1794,6 +1831,12 @@ def judge_module(fns, arg_sets, stats, want=None):
                     continue
                 if any(t[0] != "any" for t in ts):
                     nontriv = True
+                if r is False and cross_type_equal(val, ts):
+                    # the value is == to an inferred literal of another numeric type (True == 1, IE.X == 1): it got there
+                    # through an ==/in/match test on mixed numeric types, which the property's quantifier leaves out;
+                    # nothing is judged after it in this execution
+                    stats["excluded_cross_type_equality"] = stats.get("excluded_cross_type_equality", 0) + 1
+                    break
                 if r is None:
                     stats["not_judged_typevar"] = stats.get("not_judged_typevar", 0) + 1
                 elif r is False and first is None:
@@ -1813,6 +1856,8 @@ def judge_module(fns, arg_sets, stats, want=None):
             if first is not None:
                 failures.append(first)
             stats["nontrivial_exec"] = stats.get("nontrivial_exec", 0) + (1 if nontriv else 0)
+            if on_exec is not None:
+                on_exec(f, objs, nontriv, exc)
     return failures, src
 
 
@@ -2014,6 +2059,24 @@ def _isfloat_test(node, v):
     return False
 
 
+def _test_flag(node, v, fn_node):
+    """0 | 1: isinstance(v, float|complex) in the condition | 2: the condition is the truth value of a variable w that was
+    assigned from an expression containing a test (comparison / isinstance / not) on v."""
+    if node is None:
+        return 0
+    if _isfloat_test(node, v):
+        return 1
+    names = {n.id for n in ast.walk(node) if isinstance(n, ast.Name) and isinstance(n.ctx, ast.Load)} - {v}
+    for st in ast.walk(fn_node):
+        if isinstance(st, (ast.Assign, ast.AugAssign, ast.AnnAssign)) and st.value is not None and _targets(st) & names:
+            for sub in ast.walk(st.value):
+                is_test = isinstance(sub, ast.Compare) or (isinstance(sub, ast.UnaryOp) and isinstance(sub.op, ast.Not)) or \
+                    (isinstance(sub, ast.Call) and isinstance(sub.func, ast.Name) and sub.func.id == "isinstance")
+                if is_test and v in _reads(sub):
+                    return 2
+    return 0
+
+
 def _irrefutable(pat):
     if isinstance(pat, ast.MatchAs):
         return pat.pattern is None or _irrefutable(pat.pattern)
@@ -2024,10 +2087,8 @@ def _irrefutable(pat):
 
 def skeleton(fn_node, fail_node, v):
     """The token line for the failing evaluation `fail_node` (an expression node of fn_node) about variable v."""
-    fail_ids = {id(n) for n in ast.walk(fail_node)}
-
     def contains_fail(node):
-        return any(id(n) in fail_ids for n in ast.walk(node)) if node is not None else False
+        return any(n is fail_node for n in ast.walk(node)) if node is not None else False
 
     def self_dep(st, loop_assigns):
         """Does the value assigned to v by st depend on v's previous value (directly or through names assigned in the
@@ -2064,18 +2125,18 @@ def skeleton(fn_node, fail_node, v):
         return ["["] + block(stmts, loop_assigns) + ["]"]
 
     def u_tok(st):
-        return "u:%d" % (1 if _isfloat_test(st, v) else 0)
+        return "u:%d" % _test_flag(st, v, fn_node)
 
     def stmt(st, loop_assigns):
         if isinstance(st, ast.If):
             pre = [u_tok(st.test)] if contains_fail(st.test) else []
-            return pre + ["if:%d" % _isfloat_test(st.test, v)] + br(st.body, loop_assigns) + br(st.orelse, loop_assigns)
+            return pre + ["if:%d" % _test_flag(st.test, v, fn_node)] + br(st.body, loop_assigns) + br(st.orelse, loop_assigns)
         if isinstance(st, (ast.While, ast.For)):
             inner = [a for a in ast.walk(st) if isinstance(a, (ast.Assign, ast.AugAssign, ast.AnnAssign, ast.For))]
             la = loop_assigns + inner
             if isinstance(st, ast.While):
                 always = isinstance(st.test, ast.Constant) and bool(st.test.value)
-                head = ["wh:%d:%d" % (always, _isfloat_test(st.test, v))]
+                head = ["wh:%d:%d" % (always, _test_flag(st.test, v, fn_node))]
                 first = [u_tok(st.test)] if contains_fail(st.test) else []
                 return head + ["["] + first + block(st.body, la) + ["]"] + br(st.orelse, la)
             pre = [u_tok(st.iter)] if contains_fail(st.iter) else []
@@ -2095,7 +2156,7 @@ def skeleton(fn_node, fail_node, v):
                 binds = {n.name for n in ast.walk(c.pattern) if isinstance(n, (ast.MatchAs, ast.MatchStar)) and n.name}
                 cs += ["["] + (["a0"] if v in binds else []) + block(c.body, loop_assigns) + ["]"]
             last = st.cases[-1]
-            return pre + ["mt:%d:%d" % (last.guard is None and _irrefutable(last.pattern), any(_isfloat_test(c.pattern, v) for c in st.cases)), "{"] + cs + ["}"]
+            return pre + ["mt:%d:%d" % (last.guard is None and _irrefutable(last.pattern), 1 if any(_isfloat_test(c.pattern, v) for c in st.cases) else 0), "{"] + cs + ["}"]
         pre = [u_tok(st)] if contains_fail(st) else []
         if isinstance(st, ast.Break):
             return ["br"]
@@ -2106,7 +2167,7 @@ def skeleton(fn_node, fail_node, v):
         if isinstance(st, ast.Raise):
             return pre + ["rs"]
         if isinstance(st, ast.Assert):
-            return pre + ["if:%d" % _isfloat_test(st.test, v), "[", "]", "[", "rs", "]"]
+            return pre + ["if:%d" % _test_flag(st.test, v, fn_node), "[", "]", "[", "rs", "]"]
         if v in _targets(st):
             return pre + ["a1" if self_dep(st, loop_assigns) else "a0"]
         return pre + ["o"]
@@ -2135,11 +2196,11 @@ def _parse_skel(tokens):
         pos += 1
         p = t.split(":")
         if p[0] == "if":
-            return ("if", p[1] == "1", blk(), blk())
+            return ("if", int(p[1]), blk(), blk())
         if p[0] == "wh":
-            return ("loop", p[1] == "1", p[2] == "1", blk(), blk())
+            return ("loop", p[1] == "1", int(p[2]), blk(), blk())
         if p[0] == "for":
-            return ("loop", False, False, blk(), blk())
+            return ("loop", False, 0, blk(), blk())
         if p[0] == "try":
             b = blk()
             assert tokens[pos] == "{"
@@ -2156,9 +2217,9 @@ def _parse_skel(tokens):
             while tokens[pos] != "}":
                 cs.append(blk())
             pos += 1
-            return ("mt", p[1] == "1", p[2] == "1", cs)
+            return ("mt", p[1] == "1", int(p[2]), cs)
         if p[0] == "u":
-            return ("u", p[1] == "1")
+            return ("u", int(p[1]))
         return (p[0],)
 
     out = []
@@ -2213,6 +2274,10 @@ def _jump_not_nested(block, kinds):
     return False
 
 
+def _tflag(s):
+    return {"if": lambda: s[1], "loop": lambda: s[2], "u": lambda: s[1], "mt": lambda: s[2]}.get(s[0], lambda: 0)()
+
+
 D_PREDICATES = {
     "loopCarriedLiteral": lambda s: s[0] == "loop" and _any(s, lambda x: x[0] == "a1"),
     "C09:loopElse": lambda s: s[0] == "loop" and bool(s[4]) and _has_a(s),
@@ -2222,11 +2287,12 @@ D_PREDICATES = {
     "C09:loopJumpInSuppressing": lambda s: s[0] == "try" and any(_any(x, lambda y: y[0] in ("br", "co")) for x in s[1]) and _has_a(s),
     "C09:nestedLoopJump": lambda s: s[0] == "loop" and any(_any(x, lambda y: y[0] == "loop" and _any(y, lambda z: z[0] in ("br", "co")))
                                                             for b in _subblocks(s) for x in b) and _has_a(s),
-    "C02:promote": lambda s: (s[0] == "if" and s[1]) or (s[0] == "loop" and s[2]) or (s[0] == "u" and s[1]) or (s[0] == "mt" and s[2]),
-    "matchExhaustiveLeavesScope": lambda s: s[0] in ("if", "loop", "try", "mt") and any(_any(x, lambda y: y[0] == "mt" and y[1])
+    "C02:promote": lambda s: _tflag(s) == 1,
+    "unionMemberConstraint": lambda s: _tflag(s) == 2,
+    "matchExhaustiveLeavesScope": lambda s: s[0] in ("if", "loop", "try", "mt") and any(_any(x, lambda y: y[0] == "mt")
                                                                                             for b in _subblocks(s) for x in b),
 }
-CLASS_ORDER = ["C02:promote", "loopCarriedLiteral", "matchExhaustiveLeavesScope", "C09:loopElse", "C09:secondVisitSeed", "C09:loopBreak",
+CLASS_ORDER = ["C02:promote", "unionMemberConstraint", "loopCarriedLiteral", "matchExhaustiveLeavesScope", "C09:loopElse", "C09:secondVisitSeed", "C09:loopBreak",
                "C09:jumpThroughFinally", "C09:loopJumpInSuppressing", "C09:nestedLoopJump"]
 
 
@@ -2571,7 +2637,7 @@ def mini_stream(ctx, progs, with_model=True):
         exec(compile(PRELUDE_HEAD + ibody, "<c01-mini>", "exec"), {"__rec": lambda k, v: (logs.append((k, snapshot(v))), v)[1], "__name__": "c01_mini"}, ns)
         lines, meta = [], []
         for p, n in zip(part, names):
-            argsets = gen_args(rng, p["params"], ctx.n(3, 4))
+            argsets = p.get("argsets") or gen_args(rng, p["params"], ctx.n(3, 4))
             for objs in argsets:
                 if "'cls'" in repr(objs):
                     continue  # class objects are subscriptable (dict[0] is a GenericAlias): outside the mini semantics
@@ -2660,6 +2726,10 @@ def mini_stream(ctx, progs, with_model=True):
                         mem_meta.append((case, v, gt))
                     except V.Unencodable:
                         pass
+                if ok is False and "frag" in flags:
+                    # outside the modelled fragment the execution search (stream exec) is the judge, not this stream
+                    ctx.tag("mini_failure_outside_fragment")
+                    break
                 if ok is False:
                     cls = "literalEqMerge" if "literalEqMerge" in flags else ("C03:noneAssign" if "noneReject" in flags else None)
                     ctx.candidate({"src": case["src"], "args": case["args"], "node": k, "prog": p, "objs": objs},
@@ -2675,3 +2745,308 @@ def mini_stream(ctx, progs, with_model=True):
                 ref = bool(G.member(v, gt))
                 if r != ("1" if ref else "0"):
                     ctx.disagree("spec", {"object": repr(v), "type": V.ty_sexp(gt)}, "member=%s" % ref, "mem=%s" % r)
+
+
+# ------------------------------------------------------------------ classification of exec failures, candidates
+def lit_only(t):
+    k = t[0]
+    if k == "pyknown":
+        return True
+    if k == "union":
+        return bool(t[1]) and all(lit_only(x) for x in t[1])
+    if k in ("seq", "setseq"):
+        return all(lit_only(m[1] if m[0] == "many" else m) for m in t[2])
+    return False
+
+
+def conforms_to(cls, f):
+    """Is the failure the behaviour the class stands for (not merely located in its region)?"""
+    ts = f.get("xterms") or []
+    val = f.get("pyvalue")
+    if cls == "loopCarriedLiteral":
+        return bool(ts) and all(lit_only(t) for t in ts)
+    if cls == "C02:promote":
+        return isinstance(val, int) or isinstance(val, float)  # an int / bool (float for complex) dropped by the negative branch
+    if cls == "tupleConcat":
+        return isinstance(val, tuple)
+    if cls == "setDisplayOrder":
+        # only the positions are wrong: every element belongs to some member of the inferred form
+        def members_of(t):
+            return [m[1] if m[0] == "many" else m for m in t[2]] if t[0] == "seq" else []
+        ms = [m for t in ts for u in (t[1] if t[0] == "union" else [t]) for m in members_of(u)]
+        return all(_or(xm(x, m) for m in ms) is not False for x in val)
+    return True
+
+
+def classify_requests(failures, fn_src_of):
+    """Driver lines for the failures: [(failure index, line, python-mirror answer)]."""
+    reqs = []
+    for i, f in enumerate(failures):
+        if f["kind"] == "arg":
+            continue
+        src = fn_src_of(f)
+        if src is None:
+            continue
+        fnode, node = find_fail_node(src, f)
+        if node is None:
+            continue
+        v = fail_var(node)
+        if v is not None:
+            line = "cls " + skeleton(fnode, node, v)
+            reqs.append((i, line, py_classes(line[4:])))
+        elif isinstance(node, ast.Call) and isinstance(node.func, ast.Name) and node.func.id in ("list", "tuple"):
+            ts = f.get("xterms") or []
+            seqform = bool(ts) and all(any(m[0] == "seq" for m in (t[1] if t[0] == "union" else [t])) for t in ts)
+            valseq = isinstance(f.get("pyvalue"), (tuple, list))
+            reqs.append((i, "conv 1 %d %d" % (seqform, valseq), ["setDisplayOrder"] if (seqform and valseq) else []))
+        elif isinstance(node, ast.Call) and isinstance(node.func, ast.Name):
+            pts = HELPERS.get(node.func.id, ([], None))[0]
+            tops = [t[1] for t in pts if t[0] == "tvar"]
+            shared = any(tops.count(i) >= 2 for i in tops)
+            ts = f.get("xterms") or []
+            seqform = bool(ts) and all(any(m[0] == "seq" for m in (t[1] if t[0] == "union" else [t])) for t in ts)
+            valseq = isinstance(f.get("pyvalue"), (tuple, list))
+            reqs.append((i, "call %d %d %d" % (shared, seqform, valseq), ["C04:seqLeniency"] if (shared and seqform and valseq) else []))
+        elif isinstance(node, ast.BinOp):
+            is_add = isinstance(node.op, ast.Add)
+            tup = isinstance(f.get("pyvalue"), tuple)
+            reqs.append((i, "binop %d %d %d" % (is_add, tup, tup), ["tupleConcat"] if (is_add and tup) else []))
+    return reqs
+
+
+def classify(ctx, failures, fn_src_of, with_model=True):
+    """Sets f['classes'] (driver answer; Python mirror when the driver is unavailable), f['cls'], f['conforms']."""
+    reqs = classify_requests(failures, fn_src_of)
+    answers = None
+    if with_model and reqs:
+        answers = lean.run_driver("C01", [r[1] for r in reqs])
+    for j, (i, line, mirror) in enumerate(reqs):
+        f = failures[i]
+        if answers is not None:
+            ans = [] if answers[j] in ("-", "bad-op") else answers[j].split(",")
+            ctx.corr("cls")
+            if answers[j] == "bad-op" or ans != (mirror or []):
+                ctx.disagree("cls", {"line": line}, mirror, answers[j])
+        else:
+            ans = mirror or []
+        f["classes"] = ans
+        f["skeleton"] = line
+    for f in failures:
+        cs = f.get("classes", [])
+        good = [c for c in cs if conforms_to(c, f)]
+        if good:
+            f["cls"], f["conforms"] = good[0], True
+        elif cs:
+            f["cls"], f["conforms"] = cs[0], False
+        else:
+            f["cls"], f["conforms"] = None, True
+
+
+def fn_json(f):
+    return {"name": f["name"], "ptypes": f["ptypes"], "ret": f["ret"], "src": f["src"], "num_eq": f.get("num_eq", False)}
+
+
+def report(ctx, failures, fns_of, shrink_budget):
+    """ctx.candidate for every failure; new ones (no class / non-conforming) are shrunk first."""
+    for f in failures:
+        fns = fns_of(f)
+        fn = next((g for g in fns if g["name"] == f["fn"]), None)
+        if fn is None:
+            continue
+        deps = deps_of(fn, fns)
+        small = fn
+        is_new = f["cls"] is None or not f["conforms"]
+        if is_new and shrink_budget[0] > 0:
+            shrink_budget[0] -= 1
+            want = f["node"]
+            try:
+                small, deps = shrink(fn, fns, f["args"], lambda fl: bool(fl) and fl[0]["node"] == want, max_checks=ctx.n(120, 250))
+            except Exception:
+                small = fn
+        case = {"fn": small["name"], "args": f["args"], "call": "%s(%s)" % (small["name"], ", ".join(repr(V.obj_to_py(o)) for o in f["args"])),
+                "src": "\n".join(d["src"] for d in deps + [small]), "node": f["node"], "value": f["value"], "inferred": f["inferred"],
+                "fns": [fn_json(d) for d in deps + [small]], "skeleton": f.get("skeleton"), "classes": f.get("classes", [])}
+        ctx.candidate(case, f["what"], cls=f["cls"], conforms=f["conforms"], stream="exec")
+
+
+def totuple(x):
+    if isinstance(x, list):
+        if x and isinstance(x[0], str):
+            return tuple(totuple(y) if i else y for i, y in enumerate(x))
+        return [totuple(y) for y in x]
+    return x
+
+
+def corpus_entries():
+    path = os.path.join(lean.HERE, "corpus", "C01.jsonl")
+    out = []
+    if os.path.exists(path):
+        for l in open(path):
+            if l.strip():
+                out.append(json.loads(l))
+    return out
+
+
+def load_fns(js):
+    return [{"name": f["name"], "ptypes": [totuple(t) for t in f["ptypes"]], "ret": totuple(f["ret"]), "src": f["src"],
+             "num_eq": f.get("num_eq", False)} for f in js]
+
+
+def mini_from_json(p):
+    def ex(e):
+        k = e[0]
+        if k == "lit":
+            return ("lit", totuple(e[1]))
+        if k == "var":
+            return ("var", e[1])
+        if k in ("tup", "lst"):
+            return (k, [ex(x) for x in e[1]])
+        if k == "sub":
+            return ("sub", ex(e[1]), e[2])
+        return ("ite", tst(e[1]), ex(e[2]), ex(e[3]))
+
+    def tst(t):
+        return (t[0], t[1]) if t[0] != "not" else ("not", tst(t[1]))
+
+    def st(s):
+        if s[0] == "asg":
+            return ("asg", s[1], ex(s[2]))
+        if s[0] == "ret":
+            return ("ret", ex(s[1]))
+        return ("if", tst(s[1]), [st(x) for x in s[2]], [st(x) for x in s[3]])
+
+    out = {"params": [totuple(t) for t in p["params"]], "body": [st(s) for s in p["body"]]}
+    if p.get("argsets"):
+        out["argsets"] = [[totuple(o) for o in a] for a in p["argsets"]]
+    return out
+
+
+def exec_stream(ctx, with_model=True):
+    rng = ctx.rng
+    stats, feats = {}, {}
+    n_fns = ctx.n(800, 10000)
+    n_args = ctx.n(6, 8)
+    per_mod = 20
+    shrink_budget = [3]
+    all_failures = []
+    modules = {}
+
+    def on_exec(f, objs, nontriv, exc):
+        ctx.count(1, exec=1)
+        if nontriv:
+            ctx.nontriv("%x|%s" % (hash(f["src"]) & 0xffffffffffff, repr(objs)))
+
+    # the corpus first: minimised witnesses of the known classes and of past disagreements
+    for ent in corpus_entries():
+        if ent.get("kind") != "exec":
+            continue
+        fns = load_fns(ent["fns"])
+        fl, _ = judge_module(fns, {ent["fn"]: [[totuple(o) for o in ent["args"]]]}, stats, on_exec)
+        ctx.tag("corpus_exec")
+        for f in fl:
+            f["module"] = id(fns)
+        modules[id(fns)] = fns
+        all_failures += fl
+    for m in range((n_fns + per_mod - 1) // per_mod):
+        fns = gen_module(rng, per_mod, feats)
+        args = {f["name"]: gen_args(rng, f["ptypes"], n_args, f["num_eq"]) for f in fns}
+        try:
+            fl, _ = judge_module(fns, args, stats, on_exec)
+        except Exception as e:
+            ctx.notes.append("module %d: %s" % (m, traceback.format_exc()[-600:]))
+            ctx.tag("module_crash_" + type(e).__name__)
+            continue
+        if m == 0 and fns:
+            ctx.sample({"function": fns[0]["src"], "arguments": [repr([V.obj_to_py(o) for o in a]) for a in args.get(fns[0]["name"], [])[:2]]})
+        for f in fl:
+            f["module"] = id(fns)
+        if fl:
+            modules[id(fns)] = fns
+        all_failures += fl
+    for k, v in stats.items():
+        ctx.tag("x_" + k, v)
+    for k, v in feats.items():
+        ctx.tag("g_" + k, v)
+
+    def fns_of(f):
+        return modules[f["module"]]
+
+    def src_of(f):
+        g = next((g for g in fns_of(f) if g["name"] == f["owner"]), None)
+        return g["src"] if g else None
+
+    classify(ctx, all_failures, src_of, with_model)
+    for f in all_failures:
+        ctx.tag("fail_" + str(f["cls"]) + ("" if f["conforms"] else "_nonconforming"))
+    # one candidate per (class, function) is enough
+    seen, uniq = set(), []
+    for f in all_failures:
+        key = (f["module"], f["fn"], f["cls"], f["node"])
+        if key not in seen:
+            seen.add(key)
+            uniq.append(f)
+    report(ctx, uniq, fns_of, shrink_budget)
+
+
+def mini_progs(ctx):
+    g = MiniGen(ctx.rng)
+    progs = [mini_from_json(e["prog"]) for e in corpus_entries() if e.get("kind") == "mini"]
+    small = mini_small_programs()
+    if not ctx.big():
+        small = small[::3]
+    return progs + small + [g.program() for _ in range(ctx.n(250, 4000))]
+
+
+def malformed(ctx):
+    bad = ["run (prog) (args)", "cls if:0 [ o", "run (prog ((typed 1)) (asg x (lit (int 1)))) (args (int 1))", "cls zz", "binop 1", "foo"]
+    good = ["cls o u:0 ret", "run (prog ((typed 1)) (ret (var 0))) (args (int 1))"]
+    res = lean.run_driver("C01", bad + good)
+    for line, r in zip(bad + good, res):
+        ctx.corr("malformed")
+        ctx.count(1, malformed=1)
+        if (r == "bad-op") != (line in bad):
+            ctx.disagree("malformed", {"line": line}, "expected %s" % ("bad-op" if line in bad else "a result"), r)
+
+
+def translate(ctx):
+    tb, changed = V.regenerate_class_table()
+    ctx.extra["class_table_regenerated"] = {"changed_on_disk": changed, "classes": len(tb["names"])}
+
+
+def run(ctx):
+    import warnings
+    warnings.simplefilter("ignore")
+    mini_stream(ctx, mini_progs(ctx))
+    malformed(ctx)
+    exec_stream(ctx)
+
+
+def run_impl_only(ctx):
+    import warnings
+    warnings.simplefilter("ignore")
+    mini_stream(ctx, mini_progs(ctx), with_model=False)
+    exec_stream(ctx, with_model=False)
+
+
+def replay(ctx, data):
+    import warnings
+    warnings.simplefilter("ignore")
+    case = data["case"]
+    if "fns" in case:
+        fns = load_fns(case["fns"])
+        stats = {}
+        fl, src = judge_module(fns, {case["fn"]: [[totuple(o) for o in case["args"]]]}, stats)
+        for f in fl:
+            f["module"] = 0
+        classify(ctx, fl, lambda f: next((g["src"] for g in fns if g["name"] == f["owner"]), None))
+        report(ctx, fl, lambda f: fns, [0])
+        print(src[src.index("def " + fns[0]["name"]):] if ("def " + fns[0]["name"]) in src else src)
+        print("call:", case.get("call"))
+    elif "prog" in case:
+        p = mini_from_json(case["prog"])
+        if case.get("objs"):
+            p["argsets"] = [[totuple(o) for o in case["objs"]]]
+        mini_stream(ctx, [p])
+    print(json.dumps({"candidates": [{k: c[k] for k in ("what", "class", "conforms")} for c in ctx.candidates],
+                      "broken": ctx.broken[:3]}, indent=1, default=str)[:3000])
+    return 1 if (ctx.candidates or ctx.broken) else 0
